@@ -355,6 +355,19 @@ def wav_grid(tier, shard, nshards):
             if i % nshards == shard:
               yield dict(width=width, ch=ch, vals=probes, keep=keep, rate=8000 + i,
                          route=route, consume=consume)
+  # long files (thousands of frames, lengths around multiples of 4096 bytes): whatever the reader's
+  # internal buffering, every frame is decoded and the stream ends with the file
+  j = 0
+  for width in (1, 2, 3, 4):
+    lo, hi = _lohi(width)
+    for ch in (1, 2):
+      for nfr in (1365, 1366, 1367, 2731, 4096 // (width * ch), 4096 // (width * ch) + 1, 3000):
+        j += 1
+        if j % nshards == shard:
+          span = hi - lo + 1
+          vals = [lo + ((k * 2654435761 + width) % span) for k in range(nfr * ch)]
+          yield dict(width=width, ch=ch, vals=vals, keep=bool(j % 2), rate=44100,
+                     route=("path", "fileobj", "bytesio")[j % 3], consume=("list", "next", "take")[j % 3])
   if tier == "thorough" and shard == 0:
     # every 8-bit and every 16-bit value once
     yield dict(width=1, ch=1, vals=list(range(256)), keep=True, rate=8000, route="bytesio",
